@@ -517,6 +517,9 @@ fn c20(tier: &str) -> i32 {
     scripted::c20_ttl(&mut rep, lab::Bk::Sqlite, None);
     scripted::c20_ttl(&mut rep, lab::Bk::Memory, None);
     scripted::c20_ttl(&mut rep, lab::Bk::Sqlite, Some(3600));
+    // boundary values of the configured time-to-live: everything older than "now" / than one second ago goes at start-up
+    scripted::c20_ttl(&mut rep, lab::Bk::Sqlite, Some(0));
+    scripted::c20_ttl(&mut rep, lab::Bk::Sqlite, Some(1));
     scripted::c20_most_recent_after_restart(&mut rep);
     scripted::c20_retention_change(&mut rep);
     rep.finish()
@@ -854,6 +857,10 @@ fn c16check(tier: &str) -> i32 {
         }
     }
     run_e1(jobs, &|cx, rep, _| props_e1::check_c16(cx, rep), &mut rep);
+    // what a joiner does next: its rotation obligation survives every other commit of its own; its own invitations work
+    for bk in if tier == "quick" { vec![lab::Bk::Memory] } else { vec![lab::Bk::Memory, lab::Bk::Sqlite] } {
+        scripted::c16_joiner_goes_on(&mut rep, bk);
+    }
     // an accept that fails (the key package the invitation was addressed to is gone by then) never yields an active group
     for bk in if tier == "quick" { vec![lab::Bk::Memory] } else { vec![lab::Bk::Memory, lab::Bk::Sqlite] } {
         let sc = families::base("invite-accept-fails", &m, &ad, &["D"], vec![act("A", ActKind::Add("D".into()), 10)]);
